@@ -27,6 +27,8 @@ func main() {
 		core.AbortCase(core.CurProp+"|scheduler-abort|"+kind, kind+": "+detail, core.CurDesc())
 	}
 	explore.Heartbeat = core.Heartbeat
+	// the selector cache of this tree has a shape the generated hooks cannot reset (see vrt.Tolerant)
+	vrt.Tolerant = genql.VerifSelectorCacheLen() == -1
 	if pf := os.Getenv("VERIF_CPUPROFILE"); pf != "" {
 		f, _ := os.Create(pf)
 		pprof.StartCPUProfile(f)
